@@ -16,8 +16,8 @@ from props import e2e
 
 ID = 'C03'
 HARNESS = 'solve'
-COQ_IMPORTS = 'From VRP Require Import Base.Tac Model.Core Spec.Valid Model.Writer.'
-MODEL_TARGETS = ['theories/Spec/Valid.vo', 'theories/Model/Writer.vo']
+COQ_IMPORTS = 'From VRP Require Model.Routing. From VRP Require Import Base.Tac Model.Core Spec.Valid Spec.ValidTD Model.Writer.'
+MODEL_TARGETS = ['theories/Spec/Valid.vo', 'theories/Spec/ValidTD.vo', 'theories/Model/Writer.vo']
 MODEL_NEEDS_IMPL = True
 SHARD = 24
 SIZES = {'quick': 900, 'thorough': 6000, 'search': 1500}
@@ -31,11 +31,13 @@ TRUSTED = ['rendering of the JSON documents into the reduced Coq types (tools/pr
            'location, duration, time) and scheduled by the Core model of update_schedules; the real Route is not dumped']
 ASSUMPTIONS = ['integer-valued matrices, durations, times and prices: every f64 operation and `as i64` of the writer is exact, so '
                'equality is exact and the one-unit rounding allowance of the statement is not needed',
-               'fragment without breaks, reloads, recharges, clustering (no commute / parking / reserved times), one profile, no scale']
+               'fragment without required breaks, recharges, clustering (no commute / parking / reserved times); tours with reloads or '
+               'optional breaks and problems with general routing data (several profiles, integer scale, time-dependent matrices with '
+               'integer slopes) are covered by the independent replay only (the writer model has none of them)']
 
 
 def generate(rng, tier, n):
-    return e2e.gen_cases(rng, n, per_problem=3)
+    return e2e.gen_cases(rng, n, per_problem=3, allow=('tdm',))
 
 
 def _sol(impl):
@@ -47,8 +49,11 @@ def model_term(c, impl):
     if s is None or e2e.unsupported(c, s):
         return None
     ids = e2e.Ids(c)
-    return '(let P := %s in let S := %s in (precond_viol P ++ replay_viol P S ++ xreplay_viols P S, run_writer_enc P S))' % (
-        e2e.g_problem(c, ids), e2e.g_solution(c, s, ids))
+    # R = None: the classic fragment (replay_viol_x None = Valid.replay_viol); otherwise the departure-dependent replay of
+    # Spec/ValidTD.v over the C16 provider model (several profiles, scale, time-dependent matrices)
+    return ('(let R := %s in let P := %s in let S := %s in '
+            '(precond_viol P ++ replay_viol_x R P S ++ xreplay_viols P S, run_writer_enc P S))') % (
+        e2e.g_routing(c, ids), e2e.g_problem(c, ids), e2e.g_solution(c, s, ids))
 
 
 # ---- the real document in the encoding of Writer.enc_tour
@@ -82,6 +87,10 @@ def compare(c, impl, model):
     s = _sol(impl)
     if s is None or e2e.unsupported(c, s):
         return None
+    if e2e.general_routing(c):
+        # Model/Writer.v is the writer over ONE time-independent matrix: documents of problems with several profiles / scale /
+        # time-dependent matrices are covered by the independent replay (Spec/ValidTD.v) only
+        return None
     _, (tours, total) = model
     ids = e2e.Ids(c)
     if len(tours) != len(s['tours']):
@@ -90,7 +99,7 @@ def compare(c, impl, model):
     for k, (mt, dt) in enumerate(zip(tours, s['tours'])):
         if not mt:
             continue                      # the tour cannot be rebuilt: reported by the oracle (RNoReplay)
-        if any(a.get('type') == 'reload' for st in dt['stops'] for a in st['activities']):
+        if any(a.get('type') in ('reload', 'break') for st in dt['stops'] for a in st['activities']):
             # Model/Writer.v has no reload intervals (loads are reset at a reload): such tours are covered by the independent
             # replay (oracle_model: replay_viol with Spec/Intervals.v loads) only, not by the writer-model correspondence
             skipped = True
@@ -166,6 +175,10 @@ def oracle_model(c, impl, model):
     if s is None or e2e.unsupported(c, s):
         return []
     out = []
+    for t in e2e.coq_viols(model[0], 'P'):
+        if t[0] == 'PRouting':
+            out.append({'class': 'routing-value-missing-or-not-integer',
+                        'what': 'PRouting %s: general routing data outside the exact fragment (generator / provider model)' % list(t[1:])})
     for t in e2e.coq_viols(model[0], 'R'):
         name = t[0]
         if name == 'RTag':
@@ -197,6 +210,17 @@ def nontrivial_key(c, impl):
 def classify(c, impl):
     labs = ['result=' + e2e.outcome(impl)]
     s = _sol(impl)
+    if e2e.general_routing(c):
+        labs.append('general-routing')
+        stamps = sorted(e2e.secs(m['timestamp']) for m in c['matrices'] if m.get('timestamp'))
+        if stamps:
+            labs.append('time-dependent-matrices')
+            if s is not None and any(e2e.secs(st['time']['departure']) >= stamps[1] for t in s['tours'] for st in t['stops'][:-1]):
+                labs.append('leg-departs-at-or-after-a-later-timestamp')
+        if len(c['problem']['fleet'].get('profiles') or []) > 1:
+            labs.append('two-profiles')
+        if any((vt.get('profile') or {}).get('scale') not in (None, 1) for vt in c['problem']['fleet']['vehicles']):
+            labs.append('scaled-profile')
     if s is not None:
         waiting, multi = _features(s)
         labs += ['tours=%d' % len(s['tours']), 'waiting=%s' % ('yes' if waiting else 'no'),
